@@ -973,6 +973,7 @@ func callBuiltin(caller *frame, callpos token.Pos, fn *ssa.Builtin, args []value
 		i.writeClock++
 		switch m := args[0].(type) {
 		case *omap:
+			i.raceObj(caller, m, true, callpos)
 			m.delete(args[1])
 		default:
 			panic(engineError{fmt.Sprintf("illegal map type: %T", m)})
